@@ -220,6 +220,8 @@ fn run_case(case: &Value, variation: u64, vbp: &Path, scratch: &Path) -> Vec<Pro
     let mut cmd = Command::new(bp.join("bin").join(exe_name));
     cmd.args(&argv).current_dir(&app).env_clear().envs(std::env::var_os("LLVM_PROFILE_FILE").map(|v| ("LLVM_PROFILE_FILE", v))).env("VBP_SCRIPT", t.join("script.json")).env("VBP_OUT", &vout).env("PATH", "/usr/bin:/bin");
     if c("bpdir") == "set" { cmd.env("CNB_BUILDPACK_DIR", &bp); }
+    // (paired runs only) the scripted buildpack registers two different documents per SBOM format
+    if DET.load(std::sync::atomic::Ordering::SeqCst) { cmd.env("VBP_DUP_SBOM", "1"); }
     // the target values are the platform's: whatever they are, they reach the context verbatim
     let tset: [[&str; 4]; 4] = [["linux", "arm64", "ubuntu core", "24.04"], ["windows", "amd64", "nanoserver", "10.0.20348.1970"], ["linux", "", "", ""], ["freebsd", "riscv64", "  padded ", "0"]];
     let tpick = tset[(hash(&case.to_string()) as usize + variation as usize) % tset.len()];
@@ -436,6 +438,8 @@ fn hash(s: &str) -> u64 {
     s.bytes().fold(1469598103934665603u64, |h, b| (h ^ b as u64).wrapping_mul(1099511628211))
 }
 
+static DET: std::sync::atomic::AtomicBool = std::sync::atomic::AtomicBool::new(false);
+
 fn main() {
     let args: Vec<String> = std::env::args().collect();
     let input = PathBuf::from(&args[1]);
@@ -446,6 +450,7 @@ fn main() {
     let vbp = std::env::var_os("VERIF_TELEMETRY_VBP").map_or_else(|| std::env::current_exe().unwrap().parent().unwrap().join("vbp"), PathBuf::from);
     let raw: Vec<Value> = if single { vec![serde_json::from_str(&fs::read_to_string(&input).unwrap()).unwrap()] } else { read_tlc_tagged(&input, "RP") };
     if args.get(2).map(String::as_str) == Some("--det") {
+        DET.store(true, std::sync::atomic::Ordering::SeqCst);
         // C20: every path that writes outputs, twice with identical inputs in two fresh processes
         // and temp roots (every fifth pair with the clock advanced in between)
         let cases: Vec<&Value> = raw.iter().filter(|c| matches!(c["out"]["exit"].as_str(), Some("0" | "100"))).collect();
